@@ -214,4 +214,6 @@ def run(col, configs, tier):
         guarded(col, X.rule_buffer_allowance, facts)
         guarded(col, X.rule_exponent_allowance, facts)
         guarded(col, X.rule_debug_buffer_belief, facts)
+        guarded(col, X.rule_radix_digit_clamp, facts)
+        guarded(col, X.rule_u128_count_chunks, facts)
         guarded(col, F.rule_entry_validation, facts)
